@@ -3,6 +3,7 @@
     by non-trivial grids. *)
 From Coq Require Import Ascii String List Bool PArith NArith FMapPositive Permutation Lia.
 From PTBase Require Import Exn PyStr.
+From Gen Require Import GenFlags.
 From P Require Import Assoc GridEdit GridLemmas Inv InvRock InvBlock InvConn InvRename InvReorder InvMinc InvAdd InvEmbed InvDec InvAfter Reach.
 Import ListNotations.
 Open Scope list_scope.
@@ -37,21 +38,21 @@ Proof.
 Qed.
 
 (** finding add_block:replaces-connected-block *)
-Theorem add_block_replace_refuted :
+Theorem add_block_replace_refuted : add_block_refuses = false ->
   exists g n rk g', Inv g /\ add_block g n rk = Ok g' /\ ~ Inv g'.
 Proof.
-  exists g_pair, a1, r1, (result (add_block g_pair a1 r1)).
-  split; [exact g_pair_inv|]. split; [vm_compute; reflexivity|].
+  intro Hf. exists g_pair, a1, r1. eexists.
+  split; [exact g_pair_inv|]. split; [lazy - [add_block_refuses]; rewrite Hf; reflexivity|].
   intro X. pose proof (i_ends _ X 4%positive) as K. vm_compute in K.
   destruct (K (or_introl eq_refl)) as [[E|[E|[]]] _]; discriminate E.
 Qed.
 
 (** finding delete_rocktype:rocktype-in-use *)
-Theorem delete_rocktype_in_use_refuted :
+Theorem delete_rocktype_in_use_refuted : delete_rocktype_refuses = false ->
   exists g n g', Inv g /\ delete_rocktype g n = Ok g' /\ ~ Inv g'.
 Proof.
-  exists g_pair, r1, (result (delete_rocktype g_pair r1)).
-  split; [exact g_pair_inv|]. split; [vm_compute; reflexivity|].
+  intro Hf. exists g_pair, r1. eexists.
+  split; [exact g_pair_inv|]. split; [lazy - [delete_rocktype_refuses]; rewrite Hf; reflexivity|].
   intro X. pose proof (i_rock _ X 2%positive) as K. vm_compute in K.
   destruct (K (or_introl eq_refl)).
 Qed.
@@ -64,13 +65,15 @@ Proof.
   apply (inv_reachable_init ops_stale); [|vm_compute; reflexivity].
   cbn [pre_all ops_stale pre]. repeat one_step.
 Qed.
-Theorem rename_rocktype_stale_refuted :
+Theorem rename_rocktype_stale_refuted : add_rocktype_relinks = false ->
   exists g a b g', Inv g /\ rename_rocktype g a b = Ok g' /\ ~ Inv g'.
 Proof.
-  exists g_stale, r1, r3, (result (rename_rocktype g_stale r1 r3)).
-  split; [exact g_stale_inv|]. split; [vm_compute; reflexivity|].
-  intro X. pose proof (i_rock _ X 2%positive) as K. vm_compute in K.
-  destruct (K (or_introl eq_refl)) as [E|[]]. discriminate E.
+  intro Hf.
+  assert (E : exists g, run empty ops_stale = Ok g /\ inv_b g = true /\ exists g', rename_rocktype g r1 r3 = Ok g' /\ inv_b g' = false).
+  { eexists. split; [lazy - [add_rocktype_relinks]; rewrite Hf; reflexivity|]. split; [vm_compute; reflexivity|].
+    eexists. split; vm_compute; reflexivity. }
+  destruct E as [g [_ [Ig [g' [Hr Ng]]]]]. exists g, r1, r3, g'. split; [apply inv_b_sound; exact Ig|]. split; [exact Hr|].
+  intro X. apply inv_b_complete in X. congruence.
 Qed.
 
 (** the repaired rename_blocks: a swap on the connected pair keeps both blocks (it used to drop one) *)
@@ -117,12 +120,12 @@ Proof. split; [rewrite with_view_of; exact g_pair_inv|apply same_name_replaced, 
 (** finding add_block:replaces-connected-block through [__add__]: the other grid has a block named like
     a connected block of this one; the sum keeps the connection but not the block it joins *)
 Definition g_a2 : grid := result (run (with_view g_pair view0) [AddRock r1; AddBlock a1 r1]).
-Theorem grid_add_overlap_refuted :
+Theorem grid_add_overlap_refuted : add_block_refuses = false ->
   exists g h r, Inv g /\ Inv (with_view g h) /\ grid_add g (view_of g) h = Ok r /\ ~ Inv r.
 Proof.
-  exists (with_view g_a2 (view_of g_pair)), (view_of g_a2), (result (grid_add (with_view g_a2 (view_of g_pair)) (view_of g_pair) (view_of g_a2))).
+  intro Hf. exists (with_view g_a2 (view_of g_pair)), (view_of g_a2). eexists.
   split; [apply inv_b_sound; vm_compute; reflexivity|]. split; [apply inv_b_sound; vm_compute; reflexivity|].
-  split; [vm_compute; reflexivity|].
+  split; [lazy - [add_block_refuses]; rewrite Hf; reflexivity|].
   intro X. pose proof (i_ends _ X 4%positive) as K. vm_compute in K.
   destruct (K (or_introl eq_refl)) as [[E|[E|[]]] _]; discriminate E.
 Qed.
